@@ -142,7 +142,8 @@ theorem C15_unencodable_registration_refused_after_D28 (hleaf : Gen.SurviveApi.r
 /-- **every service the registry takes from `async_register_service` has passed the dry-run encode** (no hypothesis on the leaf: the
 proof is `register_leaf_on : register_encodes_first = true := rfl`, so on a tree where D28 is reverted this theorem — and with it
 `register_ok`, `apiStep_ok`, `C15_history_closed_partial` — no longer builds).  `ApiSafe` of a `register` / `update` block is therefore
-only `DryRunSound`: *if* the dry run accepts the service, its own records are encodable. -/
+only `ArgsInRange` (numeric fields and sizes; see `C15_registered_service_encodable`): that no label of any name of the service is longer
+than 63 bytes — D28's class — is derived from the dry run. -/
 theorem C15_registered_service_passed_dry_run (lower : String → String) {υ : Type} {d d' : CS υ} {s : Svc} {strict : Bool}
     (h : registerE lower d s strict = .ok d') : DryRun s := registerE_dryRun lower h
 
@@ -179,5 +180,55 @@ theorem longSvc_refused : ¬ DryRun longSvc := by
   have : (encodesFirst true longSvc).toOption.isSome = false := by decide +kernel
   rw [h] at this
   exact absurd this (by decide)
+
+/-- an ordinary service -/
+def okSvc : Svc :=
+  { type := "_a._tcp.local.", name := "x._a._tcp.local.", server := "h.local.", port := 80, weight := 0, priority := 0,
+    text := [0], hostTtl := 120, otherTtl := 4500, v4 := [[10, 0, 0, 1]], v6 := [] }
+
+theorem okSvc_dryRun : DryRun okSvc := by
+  unfold DryRun
+  have h : (encodesFirst true okSvc).toOption.isSome = true := by decide +kernel
+  cases hr : encodesFirst true okSvc with
+  | ok u => rfl
+  | error e => rw [hr] at h; simp [Except.toOption] at h
+
+/-- **`DryRunSound` is false as it was stated** (for every case folding `lower` and every enumeration TTL `ettl` of the model): the
+enumeration pointer `_services._dns-sd._udp.local. PTR lower(type)` is one of the service's own records but not part of the announcement
+the dry run encodes; with a `lower` that lengthens a label … -/
+theorem dryRunSound_refuted_lower : ¬ DryRunSound (fun _ => textOfName longHost) 4500 okSvc := by
+  intro h
+  have hs := h okSvc_dryRun
+  have hmem : RespSpec.enumPtr 4500 (textOfName longHost) ∈ RespSpec.own (fun _ => textOfName longHost) 4500 okSvc := by
+    simp [RespSpec.own]
+  have := (hs _ hmem).2.2.2.2
+  simp only [wireOfRec, RespSpec.enumPtr, RDataSafe] at this
+  have hlab := this.1
+  rw [textGlue longHost] at hlab
+  have hbad : ∃ l ∈ reencName longHost, ¬ l.length ≤ 63 := by decide +kernel
+  obtain ⟨l, hl, hn⟩ := hbad
+  exact hn (hlab l hl)
+
+/-- … or with an enumeration TTL that does not fit 32 bits, the ordinary service passes the dry run and `SvcSafe` fails.  (Artefacts of the
+model's parameters; the witness on the real code is the *shielded* record — a record that alone exceeds 8 966 bytes ends `packets()`
+without raising, the records behind it are never encoded: `notes/fixes/C15RES-FR4-dry-run-shielded.py`.) -/
+theorem dryRunSound_refuted_ettl : ¬ DryRunSound id 4294967296 okSvc := by
+  intro h
+  have hs := h okSvc_dryRun
+  have hmem : RespSpec.enumPtr 4294967296 (id okSvc.type) ∈ RespSpec.own id 4294967296 okSvc := by simp [RespSpec.own]
+  have := (hs _ hmem).2.2.2.1
+  simp [wireOfRec, RespSpec.enumPtr, Wire.Encode.wireTtl] at this
+
+/-- **the dry run is sound for arguments in range** (property level): a service the registry took from `async_register_service` /
+`async_update_service` has passed the dry run (by the translated leaves), and if its arguments are in range — `ArgsInRange`: numeric fields and
+sizes within the encoder's bounds, every announcement record alone fits a datagram — all its own records are encodable: in particular
+every label of its instance, type and `server` name is at most 63 bytes.  This is `RegSafe` for the new registry, derived, not assumed. -/
+theorem C15_registered_service_encodable (lower : String → String) (ettl : Nat) {υ : Type} {d d' : CS υ} {s : Svc} {strict : Bool}
+    (hr : ArgsInRange lower ettl s) (h : registerE lower d s strict = .ok d') : SvcSafe lower ettl s :=
+  dryRun_sound lower ettl hr (registerE_dryRun lower h)
+
+theorem C15_updated_service_encodable (lower : String → String) (ettl : Nat) {υ : Type} {d d' : CS υ} {s : Svc}
+    (hr : ArgsInRange lower ettl s) (h : updateE lower d s = .ok d') : SvcSafe lower ettl s :=
+  dryRun_sound lower ettl hr (updateE_dryRun lower h)
 
 end Zc
